@@ -1,5 +1,458 @@
-import EnvVerif.Lemmas.Basic
+/-
+  Props/C06.lean — the decoder accepts only canonical envelopes and never crashes.
+
+  "For every byte string, decoding either fails with an error or yields an envelope whose
+  re-encoding is exactly that byte string (the only tolerated alias being the deprecated
+  leaf tag #6.24, read as #6.201).  In particular a node with no assertion, with a
+  non-assertion in an assertion slot, or whose assertion elements are out of ascending
+  digest order or repeat a digest, an unknown tag, a digest of the wrong length, an
+  assertion map with other than one entry and non-deterministic CBOR are all rejected;
+  decoding never panics."
+
+  `legacyNorm` / `legacyNormBytes` / `hasLegacyLeaf` / `NoLegacyLeaf` are defined in
+  Lemmas/CodecLemmas.lean (rewrite of #6.24 to #6.201 at envelope leaf positions only).
+  The tree-level theorems need no codec law.  At the byte level `CodecLaws`
+  (Lemmas/CodecLaws.lean) is an explicit hypothesis wherever it is used (only `enc_dec`
+  is used in this file: what decodes re-encodes to the bytes it was read from).
+-/
+import EnvVerif.Lemmas.CodecLemmas
 namespace EnvVerif
-/-- placeholder while the property theorems are being written -/
-theorem c06_sort_asc_id {as : List Env} (hs : AscDigests as) : sortByDigest as = as := sortByDigest_of_asc hs
+open Env
+
+section
+variable (h : Hash)
+
+/-! ### accepted implies canonical (tree level, no codec law) -/
+
+/-- C06 core: whatever the case-directed decoder accepts re-encodes to the tree it was
+read from, up to the `#6.24 → #6.201` leaf alias and nothing else. -/
+theorem envOfCbor_canonical (c : Cbor) (e : Env) (hd : envOfCbor h c = .ok e) :
+    cborOf e = legacyNorm c :=
+  (envOfCbor_sound h c e hd).1
+
+/-- the list form (the assertion elements of a node) -/
+theorem envOfCborList_canonical (cs : List Cbor) (es : List Env) (hd : envOfCborList h cs = .ok es) :
+    cborOfList es = legacyNormList cs ∧ es.length = cs.length :=
+  ⟨(envOfCborList_sound h cs es hd).1, (envOfCborList_sound h cs es hd).2.2.2.2⟩
+
+/-- without the legacy tag the re-encoded tree is the input tree -/
+theorem envOfCbor_exact (c : Cbor) (e : Env) (hd : envOfCbor h c = .ok e)
+    (hl : hasLegacyLeaf c = false) : cborOf e = c := by
+  rw [envOfCbor_canonical h c e hd, legacyNorm_of_no_legacy c hl]
+
+/-- whatever the decoder accepts satisfies the invariant (cached digests are the recomputed
+ones; every node has at least one assertion element, strictly ascending digests - hence no
+repeat -, only assertion-or-obscured elements in assertion slots; declared digests are 32
+bytes) and the element shape `EncShape` -/
+theorem envOfCbor_inv (c : Cbor) (e : Env) (hd : envOfCbor h c = .ok e) : Inv h e ∧ EncShape e :=
+  ⟨⟨(envOfCbor_sound h c e hd).2.1, (envOfCbor_sound h c e hd).2.2.1⟩, (envOfCbor_sound h c e hd).2.2.2⟩
+
+/-- the alias is read as `#6.201`: the normalised tree decodes to the same envelope -/
+theorem envOfCbor_legacyNorm (c : Cbor) (e : Env) (hd : envOfCbor h c = .ok e) :
+    envOfCbor h (legacyNorm c) = .ok e := by
+  rw [← envOfCbor_canonical h c e hd]
+  exact envOfCbor_cborOf_aux h e (envOfCbor_inv h c e hd).1.1 (envOfCbor_inv h c e hd).1.2
+    (envOfCbor_inv h c e hd).2
+
+/-- `from_tagged_cbor` -/
+theorem envOfTaggedCbor_canonical (c : Cbor) (e : Env) (hd : envOfTaggedCbor h c = .ok e) :
+    taggedCborOf e = legacyNorm c ∧ Inv h e ∧ EncShape e := by
+  unfold envOfTaggedCbor at hd
+  split at hd
+  · rename_i t item
+    split at hd
+    · rename_i ht
+      simp only [beq_iff_eq] at ht
+      subst ht
+      refine ⟨?_, envOfCbor_inv h item e hd⟩
+      simp only [taggedCborOf, legacyNorm, envOfCbor_canonical h item e hd]
+      rfl
+    · cases hd
+  · cases hd
+
+/-! ### accepted implies canonical (byte level) -/
+
+/-- C06: if the bytes decode, the result re-encodes to those bytes up to the leaf alias,
+and satisfies the invariant.  (`legacyNormBytes b` is the encoding of `legacyNorm` of the
+dCBOR tree of `b`; no codec law is needed for this form.) -/
+theorem decode_canonical (b : Bytes) (e : Env) (hd : decode h b = .ok e) :
+    encode e = legacyNormBytes b ∧ Inv h e ∧ EncShape e := by
+  unfold decode at hd
+  unfold legacyNormBytes
+  split at hd
+  · rename_i c hc
+    obtain ⟨h1, h2⟩ := envOfTaggedCbor_canonical h c e hd
+    exact ⟨by simp only [encode, h1], h2⟩
+  · cases hd
+
+/-- the same with the tree made explicit -/
+theorem decode_canonical_tree (b : Bytes) (e : Env) (hd : decode h b = .ok e) :
+    ∃ c, Cbor.dec b = .ok c ∧ envOfTaggedCbor h c = .ok e ∧ encode e = (legacyNorm c).enc := by
+  unfold decode at hd
+  split at hd
+  · rename_i c hc
+    exact ⟨c, rfl, hd, by simp only [encode, (envOfTaggedCbor_canonical h c e hd).1]⟩
+  · cases hd
+
+/-- C06: without the legacy tag, the re-encoding is exactly the input byte string -/
+theorem decode_exact (L : CodecLaws) (b : Bytes) (e : Env) (hd : decode h b = .ok e)
+    (hl : NoLegacyLeaf b) : encode e = b := by
+  rw [(decode_canonical h b e hd).1, legacyNormBytes_of_no_legacy L hl]
+
+/-- ... and then decoding the re-encoding gives the same envelope again -/
+theorem decode_reencode (L : CodecLaws) (b : Bytes) (e : Env) (hd : decode h b = .ok e)
+    (hl : NoLegacyLeaf b) : decode h (encode e) = .ok e := by
+  rw [decode_exact h L b e hd hl, hd]
+
+/-- two accepted byte strings without the legacy tag that give the same envelope are the
+same byte string: the decoder accepts exactly one serialisation per envelope -/
+theorem decode_unique_bytes (L : CodecLaws) (b₁ b₂ : Bytes) (e : Env)
+    (h₁ : decode h b₁ = .ok e) (h₂ : decode h b₂ = .ok e) (l₁ : NoLegacyLeaf b₁)
+    (l₂ : NoLegacyLeaf b₂) : b₁ = b₂ := by
+  rw [← decode_exact h L b₁ e h₁ l₁, ← decode_exact h L b₂ e h₂ l₂]
+
+/- the hypotheses of `decode_exact` are satisfiable: the 172-byte encoding of the sample
+envelope (node, wrapped, assertion, known value, leaf, elided, encrypted, compressed) -/
+set_option maxRecDepth 100000 in
+example : decode CodecEx.toyH (encode CodecEx.sample) = .ok CodecEx.sample ∧
+    NoLegacyLeaf (encode CodecEx.sample) := by
+  have hdec : Cbor.dec (encode CodecEx.sample) = .ok (taggedCborOf CodecEx.sample) := by rfl
+  refine ⟨?_, ?_⟩
+  · simp only [decode, hdec]
+    simp only [taggedCborOf, envOfTaggedCbor, beq_self_eq_true, if_true]
+    exact envOfCbor_cborOf_aux _ _ CodecEx.sample_wf CodecEx.sample_canon CodecEx.sample_encShape
+  · intro c hc
+    rw [hdec] at hc
+    injection hc with hc
+    subst hc
+    rfl
+
+/- the alias: `#6.200(#6.24("a"))` is accepted and re-encodes as `#6.200(#6.201("a"))` -/
+example : decode CodecEx.toyH [0xd8, 0xc8, 0xd8, 0x18, 0x61, 0x61] = .ok CodecEx.sLeaf ∧
+    encode CodecEx.sLeaf = [0xd8, 0xc8, 0xd8, 0xc9, 0x61, 0x61] := ⟨by rfl, by rfl⟩
+
+/-! ### rejection, one lemma per class named in the property -/
+
+/-- a node with no assertion: an array of fewer than two elements -/
+theorem reject_node_arity (xs : List Cbor) (hx : xs.length < 2) :
+    envOfCbor h (.array xs) = .err "node-arity" := by
+  match xs, hx with
+  | [], _ => exact envOfCbor_array_nil h
+  | [x], _ => exact envOfCbor_array_one h x
+  | _ :: _ :: _, hx => simp at hx
+
+/-- a non-assertion in an assertion slot: some element after the subject decodes to an
+envelope that is neither an assertion nor obscured (nor a node over one of those) -/
+theorem reject_non_assertion_slot (x : Cbor) (rest : List Cbor) (c : Cbor) (a : Env)
+    (hc : c ∈ rest) (ha : envOfCbor h c = .ok a) (hslot : a.slotOk = false) :
+    ∃ msg, envOfCbor h (.array (x :: rest)) = .err msg := by
+  apply err_of_not_ok
+  intro e he
+  obtain ⟨s, as, _, hr, _, _, hall, _⟩ := envOfCbor_array_ok h he
+  obtain ⟨i, hi⟩ := List.getElem?_of_mem hc
+  obtain ⟨a', ha1, ha2⟩ := envOfCborList_getElem? h hr i c hi
+  rw [ha] at ha2
+  injection ha2 with ha2
+  subst ha2
+  have := hall a (List.mem_of_getElem? ha1)
+  rw [hslot] at this
+  cases this
+
+/-- in particular a known value, a leaf (either tag) or a wrapped envelope in an assertion
+slot is rejected -/
+theorem reject_non_assertion_shape (x : Cbor) (rest : List Cbor) (c : Cbor) (hc : c ∈ rest)
+    (hs : (∃ v, c = .uint v) ∨ (∃ i, c = .tagged TAG_LEAF i) ∨ (∃ i, c = .tagged TAG_ENCODED_CBOR i) ∨
+      (∃ i, c = .tagged TAG_ENVELOPE i)) :
+    ∃ msg, envOfCbor h (.array (x :: rest)) = .err msg := by
+  apply err_of_not_ok
+  intro e he
+  obtain ⟨s, as, _, hr, _, _, hall, _⟩ := envOfCbor_array_ok h he
+  obtain ⟨i, hi⟩ := List.getElem?_of_mem hc
+  obtain ⟨a, ha1, ha2⟩ := envOfCborList_getElem? h hr i c hi
+  have := hall a (List.mem_of_getElem? ha1)
+  rw [slotOk_false_of_shape h ha2 hs] at this
+  cases this
+
+/-- the general ordering lemma: two assertion elements, the earlier one not strictly below
+the later one in digest order (positions need not be adjacent) -/
+theorem reject_not_ascending (x : Cbor) (rest : List Cbor) (i j : Nat) (ci cj : Cbor) (a b : Env)
+    (hij : i < j) (hi : rest[i]? = some ci) (hj : rest[j]? = some cj)
+    (ha : envOfCbor h ci = .ok a) (hb : envOfCbor h cj = .ok b)
+    (hnot : ¬ a.digest.val < b.digest.val) :
+    ∃ msg, envOfCbor h (.array (x :: rest)) = .err msg := by
+  apply err_of_not_ok
+  intro e he
+  obtain ⟨s, as, _, hr, _, hasc, _, _⟩ := envOfCbor_array_ok h he
+  obtain ⟨a', ha1, ha2⟩ := envOfCborList_getElem? h hr i ci hi
+  obtain ⟨b', hb1, hb2⟩ := envOfCborList_getElem? h hr j cj hj
+  rw [ha] at ha2
+  rw [hb] at hb2
+  injection ha2 with ha2
+  injection hb2 with hb2
+  subst ha2
+  subst hb2
+  obtain ⟨hil, hai⟩ := List.getElem?_eq_some_iff.mp ha1
+  obtain ⟨hjl, hbj⟩ := List.getElem?_eq_some_iff.mp hb1
+  have := (List.pairwise_iff_getElem.mp hasc) i j hil hjl hij
+  rw [hai, hbj] at this
+  exact hnot this
+
+/-- assertion elements out of ascending digest order -/
+theorem reject_misordered (x : Cbor) (rest : List Cbor) (i j : Nat) (ci cj : Cbor) (a b : Env)
+    (hij : i < j) (hi : rest[i]? = some ci) (hj : rest[j]? = some cj)
+    (ha : envOfCbor h ci = .ok a) (hb : envOfCbor h cj = .ok b)
+    (hlt : b.digest.val < a.digest.val) :
+    ∃ msg, envOfCbor h (.array (x :: rest)) = .err msg :=
+  reject_not_ascending h x rest i j ci cj a b hij hi hj ha hb (by omega)
+
+/-- two assertion elements with the same digest -/
+theorem reject_repeated_digest (x : Cbor) (rest : List Cbor) (i j : Nat) (ci cj : Cbor) (a b : Env)
+    (hij : i < j) (hi : rest[i]? = some ci) (hj : rest[j]? = some cj)
+    (ha : envOfCbor h ci = .ok a) (hb : envOfCbor h cj = .ok b)
+    (heq : a.digest = b.digest) :
+    ∃ msg, envOfCbor h (.array (x :: rest)) = .err msg :=
+  reject_not_ascending h x rest i j ci cj a b hij hi hj ha hb (by rw [heq]; omega)
+
+/-- the same element twice (whether or not it decodes) -/
+theorem reject_repeated_element (x : Cbor) (rest : List Cbor) (i j : Nat) (c : Cbor)
+    (hij : i < j) (hi : rest[i]? = some c) (hj : rest[j]? = some c) :
+    ∃ msg, envOfCbor h (.array (x :: rest)) = .err msg := by
+  apply err_of_not_ok
+  intro e he
+  obtain ⟨s, as, _, hr, _, _, _, _⟩ := envOfCbor_array_ok h he
+  obtain ⟨a, _, ha2⟩ := envOfCborList_getElem? h hr i c hi
+  obtain ⟨msg, hm⟩ := reject_repeated_digest h x rest i j c c a a hij hi hj ha2 ha2 rfl
+  rw [he] at hm
+  cases hm
+
+/-- adjacent form, on the decoded elements: exactly the check the decoder performs -/
+theorem reject_adjacent_not_ascending (x y : Cbor) (r : List Cbor) (s : Env) (as : List Env)
+    (hx : envOfCbor h x = .ok s) (hr : envOfCborList h (y :: r) = .ok as) (hasc : ascAdj as = false) :
+    envOfCbor h (.array (x :: y :: r)) = .err "assertions-not-ascending" := by
+  rw [envOfCbor_array_cons, hx]
+  simp only [hr, hasc, Bool.false_eq_true, if_false]
+
+/-- an unknown tag -/
+theorem reject_unknown_tag (t : Nat) (item : Cbor) (h1 : t ≠ TAG_LEAF) (h2 : t ≠ TAG_ENCODED_CBOR)
+    (h3 : t ≠ TAG_ENVELOPE) (h4 : t ≠ TAG_ENCRYPTED) (h5 : t ≠ TAG_COMPRESSED) :
+    envOfCbor h (.tagged t item) = .err "unknown-tag" := by
+  rw [envOfCbor_tagged]
+  simp [h1, h2, h3, h4, h5]
+
+/-- a digest of the wrong length (elided element) -/
+theorem reject_bad_digest_len (b : Bytes) (hb : b.length ≠ 32) :
+    envOfCbor h (.bytes b) = .err "dep:digest-size" := by
+  rw [envOfCbor_bytes, Digest.ofBytes_none hb]
+
+/-- a digest of the wrong length (the digest carried by a compressed element) -/
+theorem reject_bad_digest_len_compressed (c s data : Cbor) (t : Nat) (b : Bytes) (hb : b.length ≠ 32) :
+    ∃ msg, envOfCbor h (.tagged TAG_COMPRESSED (.array [c, s, data, .tagged t (.bytes b)])) = .err msg := by
+  apply err_of_not_ok
+  intro e he
+  rw [envOfCbor_tagged] at he
+  have h1 : (TAG_COMPRESSED == TAG_LEAF || TAG_COMPRESSED == TAG_ENCODED_CBOR) = false := by decide
+  have h2 : (TAG_COMPRESSED == TAG_ENVELOPE) = false := by decide
+  have h3 : (TAG_COMPRESSED == TAG_ENCRYPTED) = false := by decide
+  have h4 : (TAG_COMPRESSED == TAG_COMPRESSED) = true := by decide
+  simp only [h1, h2, h3, h4, Bool.false_eq_true, if_false, if_true] at he
+  obtain ⟨cm, d, _, hitem, _⟩ := decodeCompressed_ok he
+  simp only [compMsgCbor, digestCbor, Cbor.array.injEq, List.cons.injEq, Cbor.tagged.injEq,
+    Cbor.bytes.injEq, and_true] at hitem
+  have := Digest.bytes_length d
+  rw [← hitem.2.2.2.2] at this
+  exact hb this
+
+/-- a digest of the wrong length or no digest at all in the `aad` of an encrypted element -/
+theorem reject_encrypted_without_digest (ct nonce auth aad : Bytes)
+    (hm : (EncMsg.mk ct nonce auth aad).optDigest = none) :
+    ∃ msg, envOfCbor h (.tagged TAG_ENCRYPTED (.array [.bytes ct, .bytes nonce, .bytes auth, .bytes aad]))
+      = .err msg := by
+  apply err_of_not_ok
+  intro e he
+  rw [envOfCbor_tagged] at he
+  have h1 : (TAG_ENCRYPTED == TAG_LEAF || TAG_ENCRYPTED == TAG_ENCODED_CBOR) = false := by decide
+  have h2 : (TAG_ENCRYPTED == TAG_ENVELOPE) = false := by decide
+  have h3 : (TAG_ENCRYPTED == TAG_ENCRYPTED) = true := by decide
+  simp only [h1, h2, h3, Bool.false_eq_true, if_false, if_true] at he
+  obtain ⟨m, d, _, hitem, hd, _, _, hne⟩ := decodeEncrypted_ok he
+  have hemp : m.aad.isEmpty = false := by
+    cases hma : m.aad with
+    | nil => exact absurd hma hne
+    | cons _ _ => rfl
+  simp only [encMsgCbor, hemp, Bool.false_eq_true, if_false, List.cons_append, List.nil_append,
+    Cbor.array.injEq, List.cons.injEq, Cbor.bytes.injEq, and_true] at hitem
+  have : m = EncMsg.mk ct nonce auth aad := by
+    cases m
+    simp only [EncMsg.mk.injEq]
+    exact ⟨hitem.1.symm, hitem.2.1.symm, hitem.2.2.1.symm, hitem.2.2.2.symm⟩
+  rw [this, hm] at hd
+  cases hd
+
+/-- an assertion map with other than one entry -/
+theorem reject_map_arity (kvs : List (Cbor × Cbor)) (hk : kvs.length ≠ 1) :
+    envOfCbor h (.map kvs) = .err "assertion-map-arity" := by
+  match kvs, hk with
+  | [], _ => simp only [envOfCbor]
+  | [(k, v)], hk => simp at hk
+  | _ :: _ :: _, _ => simp only [envOfCbor]
+
+/-- an encrypted element whose array does not have exactly four items (three items is the
+form without `aad`, which declares no digest; five or more is finding F2) -/
+theorem reject_encrypted_extra (xs : List Cbor) (hx : xs.length ≠ 4) :
+    ∃ msg, envOfCbor h (.tagged TAG_ENCRYPTED (.array xs)) = .err msg := by
+  apply err_of_not_ok
+  intro e he
+  rw [envOfCbor_tagged] at he
+  have h1 : (TAG_ENCRYPTED == TAG_LEAF || TAG_ENCRYPTED == TAG_ENCODED_CBOR) = false := by decide
+  have h2 : (TAG_ENCRYPTED == TAG_ENVELOPE) = false := by decide
+  have h3 : (TAG_ENCRYPTED == TAG_ENCRYPTED) = true := by decide
+  simp only [h1, h2, h3, Bool.false_eq_true, if_false, if_true] at he
+  obtain ⟨m, d, _, hitem, _, _, _, hne⟩ := decodeEncrypted_ok he
+  have hemp : m.aad.isEmpty = false := by
+    cases hma : m.aad with
+    | nil => exact absurd hma hne
+    | cons _ _ => rfl
+  simp only [encMsgCbor, hemp, Bool.false_eq_true, if_false, List.cons_append, List.nil_append,
+    Cbor.array.injEq] at hitem
+  rw [hitem] at hx
+  simp at hx
+
+/-- an encrypted element with an empty `aad` item (it would re-encode without it) -/
+theorem reject_encrypted_empty_aad (ct nonce auth : Cbor) :
+    ∃ msg, envOfCbor h (.tagged TAG_ENCRYPTED (.array [ct, nonce, auth, .bytes []])) = .err msg := by
+  apply err_of_not_ok
+  intro e he
+  rw [envOfCbor_tagged] at he
+  have h1 : (TAG_ENCRYPTED == TAG_LEAF || TAG_ENCRYPTED == TAG_ENCODED_CBOR) = false := by decide
+  have h2 : (TAG_ENCRYPTED == TAG_ENVELOPE) = false := by decide
+  have h3 : (TAG_ENCRYPTED == TAG_ENCRYPTED) = true := by decide
+  simp only [h1, h2, h3, Bool.false_eq_true, if_false, if_true] at he
+  obtain ⟨m, d, _, hitem, _, _, _, hne⟩ := decodeEncrypted_ok he
+  have hemp : m.aad.isEmpty = false := by
+    cases hma : m.aad with
+    | nil => exact absurd hma hne
+    | cons _ _ => rfl
+  simp only [encMsgCbor, hemp, Bool.false_eq_true, if_false, List.cons_append, List.nil_append,
+    Cbor.array.injEq, List.cons.injEq, Cbor.bytes.injEq, and_true] at hitem
+  exact hne hitem.2.2.2.symm
+
+/-- a compressed element with a negative checksum or size (`dcbor` would wrap it around to
+an unsigned value; the element would then re-encode differently) -/
+theorem reject_compressed_negative (c s data dg : Cbor)
+    (hneg : (∃ n, c = .nint n) ∨ (∃ n, s = .nint n)) :
+    ∃ msg, envOfCbor h (.tagged TAG_COMPRESSED (.array [c, s, data, dg])) = .err msg := by
+  apply err_of_not_ok
+  intro e he
+  rw [envOfCbor_tagged] at he
+  have h1 : (TAG_COMPRESSED == TAG_LEAF || TAG_COMPRESSED == TAG_ENCODED_CBOR) = false := by decide
+  have h2 : (TAG_COMPRESSED == TAG_ENVELOPE) = false := by decide
+  have h3 : (TAG_COMPRESSED == TAG_ENCRYPTED) = false := by decide
+  have h4 : (TAG_COMPRESSED == TAG_COMPRESSED) = true := by decide
+  simp only [h1, h2, h3, h4, Bool.false_eq_true, if_false, if_true] at he
+  obtain ⟨cm, d, _, hitem, _⟩ := decodeCompressed_ok he
+  simp only [compMsgCbor, Cbor.array.injEq, List.cons.injEq, and_true] at hitem
+  rcases hneg with ⟨n, rfl⟩ | ⟨n, rfl⟩
+  · cases hitem.1
+  · cases hitem.2.1
+
+/-- a compressed element whose array does not have exactly four items (three items is the
+form without a digest) -/
+theorem reject_compressed_arity (xs : List Cbor) (hx : xs.length ≠ 4) :
+    ∃ msg, envOfCbor h (.tagged TAG_COMPRESSED (.array xs)) = .err msg := by
+  apply err_of_not_ok
+  intro e he
+  rw [envOfCbor_tagged] at he
+  have h1 : (TAG_COMPRESSED == TAG_LEAF || TAG_COMPRESSED == TAG_ENCODED_CBOR) = false := by decide
+  have h2 : (TAG_COMPRESSED == TAG_ENVELOPE) = false := by decide
+  have h3 : (TAG_COMPRESSED == TAG_ENCRYPTED) = false := by decide
+  have h4 : (TAG_COMPRESSED == TAG_COMPRESSED) = true := by decide
+  simp only [h1, h2, h3, h4, Bool.false_eq_true, if_false, if_true] at he
+  obtain ⟨cm, d, _, hitem, _⟩ := decodeCompressed_ok he
+  simp only [compMsgCbor, Cbor.array.injEq] at hitem
+  rw [hitem] at hx
+  simp at hx
+
+/-- a bare CBOR value that is none of the envelope cases -/
+theorem reject_bare_cbor (c : Cbor)
+    (hc : (∃ n, c = .nint n) ∨ (∃ b, c = .text b) ∨ (∃ v, c = .simple v) ∨ (∃ f, c = .float f)) :
+    envOfCbor h c = .err "invalid-envelope" := by
+  rcases hc with ⟨_, rfl⟩ | ⟨_, rfl⟩ | ⟨_, rfl⟩ | ⟨_, rfl⟩ <;> simp only [envOfCbor]
+
+/-- the outermost item must be `#6.200(...)` -/
+theorem reject_untagged_top (c : Cbor) (hc : ∀ item, c ≠ .tagged TAG_ENVELOPE item) :
+    ∃ msg, envOfTaggedCbor h c = .err msg := by
+  unfold envOfTaggedCbor
+  split
+  · rename_i t item
+    split
+    · rename_i ht
+      simp only [beq_iff_eq] at ht
+      subst ht
+      exact absurd rfl (hc item)
+    · exact ⟨_, rfl⟩
+  · exact ⟨_, rfl⟩
+
+/-- non-deterministic CBOR, part 1: whatever the dCBOR decoder refuses, the envelope
+decoder refuses -/
+theorem reject_cbor_error (b : Bytes) (x : Cbor.DecErr) (hb : Cbor.dec b = .error x) :
+    decode h b = .err ("cbor:" ++ x.name) := by
+  simp only [decode, hb]
+
+/-- non-deterministic CBOR, part 2 (from the codec law): a byte string that is not *the*
+encoding of a valid dCBOR tree is refused -/
+theorem reject_noncanonical_cbor (L : CodecLaws) (b : Bytes)
+    (hb : ∀ c, c.Valid → c.enc ≠ b) : ∃ msg, decode h b = .err msg := by
+  cases hd : Cbor.dec b with
+  | ok c => exact absurd (L.enc_dec b c hd).1 (hb c (L.enc_dec b c hd).2)
+  | error x => exact ⟨_, reject_cbor_error h b x hd⟩
+
+/- instances on the model codec: a non-shortest head, an indefinite-length array, a map
+with keys out of order, a duplicate key, a float that should have been an integer -/
+example : decode h [0xd8, 0xc8, 0x18, 0x01] = .err "cbor:non-canonical" := by rfl
+example : decode h [0xd8, 0xc8, 0x9f, 0x01, 0xff] = .err "cbor:bad-header" := by rfl
+example : decode h [0xd8, 0xc8, 0xa2, 0x02, 0x01, 0x01, 0x01] = .err "cbor:map-order" := by rfl
+example : decode h [0xd8, 0xc8, 0xa2, 0x01, 0x01, 0x01, 0x01] = .err "cbor:map-order" := by rfl
+example : decode h [0xd8, 0xc8, 0xd8, 0xc9, 0xf9, 0x3c, 0x00] = .err "cbor:non-canonical" := by rfl
+
+/-! ### no panic -/
+
+/-- the `assert!(!unchecked_assertions.is_empty())` of `new_with_unchecked_assertions` is
+unreachable from the decoder (the array has at least two elements), and there is no other
+panic site -/
+theorem envOfCbor_no_panic (c : Cbor) (s : String) : envOfCbor h c ≠ .panic s :=
+  envOfCbor_no_panic_aux h c s
+
+theorem envOfTaggedCbor_no_panic (c : Cbor) (s : String) : envOfTaggedCbor h c ≠ .panic s := by
+  unfold envOfTaggedCbor
+  split
+  · split
+    · exact envOfCbor_no_panic h _ s
+    · intro hh; cases hh
+  · intro hh; cases hh
+
+/-- C06: decoding never panics -/
+theorem decode_no_panic (b : Bytes) (s : String) : decode h b ≠ .panic s := by
+  unfold decode
+  split
+  · exact envOfTaggedCbor_no_panic h _ s
+  · intro hh; cases hh
+
+/-- C06: for every byte string, decoding either fails with an error or yields an envelope
+that satisfies the invariant and whose re-encoding is that byte string up to the alias -/
+theorem decode_total (b : Bytes) :
+    (∃ msg, decode h b = .err msg) ∨
+    (∃ e, decode h b = .ok e ∧ encode e = legacyNormBytes b ∧ Inv h e ∧ EncShape e) := by
+  cases hd : decode h b with
+  | ok e => exact Or.inr ⟨e, rfl, decode_canonical h b e hd⟩
+  | err m => exact Or.inl ⟨m, rfl⟩
+  | panic s => exact absurd hd (decode_no_panic h b s)
+
+/-- ... and exactly that byte string when the legacy tag does not occur -/
+theorem decode_total_exact (L : CodecLaws) (b : Bytes) (hl : NoLegacyLeaf b) :
+    (∃ msg, decode h b = .err msg) ∨ (∃ e, decode h b = .ok e ∧ encode e = b ∧ Inv h e) := by
+  rcases decode_total h b with hm | ⟨e, hd, _, hi, _⟩
+  · exact Or.inl hm
+  · exact Or.inr ⟨e, hd, decode_exact h L b e hd hl, hi⟩
+
+end
 end EnvVerif
